@@ -252,3 +252,64 @@ Example c04_definite_nonvacuous :
   wf_poly p /\ (length (i_vars p) <= 1)%nat /\
   (forall x, Rmin 1 2 <= x <= Rmax 1 2 -> dom_integ (i_terms p) (uni_var p) x).
 Proof. exact Proofs.Integ.c04_definite_hyps. Qed.
+
+(* ---- FLOAT instance: "equals the exact integral of the polynomial up to rounding" (Proofs/DefiniteFloat.v, Flocq) ----
+   [B2R (Prim2B x)] is the real value of the primitive float x; Fx is the exact antiderivative
+   sum_k c_k x^(k+1)/(k+1) of the real values of the float coefficients (so Fx(b) - Fx(a) is the exact integral,
+   c04_definite_simple), Ax the same with absolute values; n = length of the coefficient vector; eps = 2^-53.
+   Hypotheses: n < 2^53; every coefficient division c_k / ((k as f64) + 1.0) is okdiv (finite, exact quotient zero or
+   >= 2^-1022: Proofs/SubstFloat.v); the hypotheses of c01_eval_simple_float_error for the integrated polynomial at
+   both bounds (eval_no_underflow: every product finite and zero-or-normal; every partial sum finite);
+   the final subtraction is finite.  Exponent 2n+4 = n+1 entries evaluated (2(n+1)) + one division + one subtraction. *)
+From Flocq Require Import Core BinarySingleNaN PrimFloat.
+From SV Require Import Model.Stats Proofs.PolyFloat Proofs.SubstFloat Proofs.DefiniteFloat.
+
+Theorem c04_definite_float_error : forall (p : spoly PrimFloat.float) (a b : PrimFloat.float),
+  (Z.of_nat (length (s_coefs p)) < 2 ^ 53)%Z ->
+  (forall k, (k < length (s_coefs p))%nat ->
+     okdiv (nth k (s_coefs p) n0) (nadd (nofnat k) n1)) ->
+  (forall x, x = a \/ x = b ->
+     eval_no_underflow (s_coefs (simple_integral p)) x /\
+     forall m, (m <= length (s_coefs (simple_integral p)))%nat ->
+       is_finite (Prim2B (sum_list (firstn m (eval_terms_from x 0 (s_coefs (simple_integral p)))))) = true) ->
+  is_finite (Prim2B (nsub (eval_simple (simple_integral p) b) (eval_simple (simple_integral p) a))) = true ->
+  let Fx := fun x : R => fold_right (fun k acc =>
+              B2R (Prim2B (nth k (s_coefs p) n0)) * x ^ S k / INR (S k) + acc) 0 (seq 0 (length (s_coefs p))) in
+  let Ax := fun x : R => fold_right (fun k acc =>
+              Rabs (B2R (Prim2B (nth k (s_coefs p) n0))) * Rabs x ^ S k / INR (S k) + acc) 0 (seq 0 (length (s_coefs p))) in
+  exists r, s_analytical_integral p a b = Ok r /\ is_finite (Prim2B r) = true /\
+    Rabs (B2R (Prim2B r) - (Fx (B2R (Prim2B b)) - Fx (B2R (Prim2B a))))
+    <= ((1 + bpow radix2 (-53)) ^ (2 * length (s_coefs p) + 4) - 1)
+       * (Ax (B2R (Prim2B b)) + Ax (B2R (Prim2B a))).
+Proof. exact Proofs.DefiniteFloat.definite_float_error. Qed.
+Check c04_definite_float_error : forall (p : spoly PrimFloat.float) (a b : PrimFloat.float),
+  (Z.of_nat (length (s_coefs p)) < 2 ^ 53)%Z ->
+  (forall k, (k < length (s_coefs p))%nat ->
+     okdiv (nth k (s_coefs p) n0) (nadd (nofnat k) n1)) ->
+  (forall x, x = a \/ x = b ->
+     eval_no_underflow (s_coefs (simple_integral p)) x /\
+     forall m, (m <= length (s_coefs (simple_integral p)))%nat ->
+       is_finite (Prim2B (sum_list (firstn m (eval_terms_from x 0 (s_coefs (simple_integral p)))))) = true) ->
+  is_finite (Prim2B (nsub (eval_simple (simple_integral p) b) (eval_simple (simple_integral p) a))) = true ->
+  let Fx := fun x : R => fold_right (fun k acc =>
+              B2R (Prim2B (nth k (s_coefs p) n0)) * x ^ S k / INR (S k) + acc) 0 (seq 0 (length (s_coefs p))) in
+  let Ax := fun x : R => fold_right (fun k acc =>
+              Rabs (B2R (Prim2B (nth k (s_coefs p) n0))) * Rabs x ^ S k / INR (S k) + acc) 0 (seq 0 (length (s_coefs p))) in
+  exists r, s_analytical_integral p a b = Ok r /\ is_finite (Prim2B r) = true /\
+    Rabs (B2R (Prim2B r) - (Fx (B2R (Prim2B b)) - Fx (B2R (Prim2B a))))
+    <= ((1 + bpow radix2 (-53)) ^ (2 * length (s_coefs p) + 4) - 1)
+       * (Ax (B2R (Prim2B b)) + Ax (B2R (Prim2B a))).
+Print Assumptions c04_definite_float_error.
+
+(* non-vacuity: 3x^2+2x-5 (Proofs.PolyFloat.ex_poly) over [0.5, 1.5] (ex_lo = 0x1p-1, ex_hi = 0x1.8p+0)
+   satisfies every hypothesis; checked by computation *)
+Example c04_float_nonvacuous :
+  (Z.of_nat (length (s_coefs ex_poly)) < 2 ^ 53)%Z /\
+  (forall k, (k < length (s_coefs ex_poly))%nat ->
+     okdiv (nth k (s_coefs ex_poly) n0) (nadd (nofnat k) n1)) /\
+  (forall x, x = ex_lo \/ x = ex_hi ->
+     eval_no_underflow (s_coefs (simple_integral ex_poly)) x /\
+     forall m, (m <= length (s_coefs (simple_integral ex_poly)))%nat ->
+       is_finite (Prim2B (sum_list (firstn m (eval_terms_from x 0 (s_coefs (simple_integral ex_poly)))))) = true) /\
+  is_finite (Prim2B (nsub (eval_simple (simple_integral ex_poly) ex_hi) (eval_simple (simple_integral ex_poly) ex_lo))) = true.
+Proof. exact Proofs.DefiniteFloat.ex_definite_hyps. Qed.
